@@ -252,6 +252,9 @@ impl Reader {
                     .ok_or(format::Error::TickOverflow)?
                     .checked_add(dt)
                     .ok_or(format::Error::TickOverflow)?;
+                // An explicit tick skip ends the previous tick; the next
+                // player record cannot imply another tick increment.
+                self.prev_player_cid = None;
                 if self.in_tick {
                     self.in_tick = false;
                     Item::TickEnd(old_tick)
